@@ -672,7 +672,7 @@ func init() {
 					if !c.Mine(i) {
 						continue
 					}
-					if i&63 == 0 && c.Expired() {
+					if c.ExpiredEvery(64) {
 						r.NotExhaustive = append(r.NotExhaustive, "sequences: time guard")
 						break
 					}
